@@ -372,6 +372,50 @@ func (h *histProp) genScale(r *rand.Rand, typ string, idx int64, o gen.Opts) PCa
 		ops := []POp{{K: "write", A: 0, B: len(stream)}}
 		ops = append(ops, parses(len(stream)/c.BlockSize+2, 0, 0, 0, ntl)...)
 		pc = PCase{Cfg: c, Family: "noisecopy", Stream: stream, Ops: ops}
+	case "zeroshrink":
+		// a prefix of non-zero bytes, a few zero bytes, then a run of one byte:
+		// parsed in small blocks, and Shrink is called exactly when it makes
+		// the buffer start with the zero bytes (a buffer that starts with
+		// zeros is a special case for the bucket hash) - after the buffer
+		// started with other bytes
+		c := scaleCfg(r, typ, o, 4)
+		if c.HashBits > 2 || r.Intn(4) > 0 {
+			c.HashBits = 1 + r.Intn(2)
+		}
+		if typ == "BUP" {
+			// (buckets that do not wrap before the Shrink)
+			c.BucketSize = []int{128, 128, 64, 255}[r.Intn(4)]
+		}
+		bs := 32 + r.Intn(9)
+		na, nb := 2+r.Intn(2), 1+r.Intn(2)
+		c.BlockSize = bs
+		c.ShrinkSize = nb * bs
+		c.BufferSize = (na+nb)*bs + 1000
+		c.WindowSize = c.BufferSize
+		if sa {
+			c.MinMatchLen = 2 + r.Intn(2)
+		}
+		var stream []byte
+		for j := 0; j < na*bs; j++ {
+			stream = append(stream, byte(1+(j*7+variant)%251))
+		}
+		for j, z := 0, 2+r.Intn(9); j < z; j++ {
+			stream = append(stream, 0)
+		}
+		runb := byte(r.Intn(256))
+		if variant%4 == 3 {
+			runb = 0
+		}
+		for len(stream) < c.BufferSize-8 {
+			stream = append(stream, runb)
+		}
+		ops := []POp{{K: "write", A: 0, B: len(stream)}}
+		ops = append(ops, parses(na+nb, 0)...)
+		ops = append(ops, POp{K: "shrink"})
+		ops = append(ops, parses(12, 0)...)
+		ops = append(ops, POp{K: "shrink"})
+		ops = append(ops, parses(30, 0)...)
+		pc = PCase{Cfg: c, Family: "zeroshrink", Stream: stream, Ops: ops}
 	case "tandem":
 		// X X and X X X with |X| of 15-45 kB over few letters, and source text
 		// repeated three times: the inputs that use up the work budget of the
